@@ -142,6 +142,20 @@ def check(tier, seed, replay=None):
                     items.append((X.strip(EP.parse(txt, table)), ("null",), [], [], txt))
             for txt in ("(sort_unique [%d, %d, %d])" % (a, b, a), "(sort [%d, 1.5, %d, -1])" % (a, b)):
                 items.append((X.strip(EP.parse(txt, table)), ("null",), [], [], txt))
+        # the same across the ends of the integer range: an integer next to a whole double just outside the range (spelled so that the double is
+        # exactly the number written: 2^64, 2^64 + 4096, -2^63 as a decimal, -2^63 - 2048) - `=` and the orders compare numbers by value
+        CROSS = (("18446744073709551615", "18446744073709551616"), ("18446744073709551614", "18446744073709551616"), ("18446744073709551615", "18446744073709555712"),
+                 ("-9223372036854775807", "-9223372036854775808.0"), ("-9223372036854775808", "-9223372036854775808.0"), ("-9223372036854775807", "-9223372036854777856"),
+                 ("-9223372036854775700", "-9223372036854775808.0"), ("9007199254740993", "9007199254740992.0"), ("0", "-0.0"), ("1", "1.0"))
+        for a, b in CROSS:
+            for x, y in ((a, b), (b, a)):
+                for tmpl in ("(= %s %s)", "(!= %s %s)", "(< %s %s)", "(<= %s %s)", "(> %s %s)", "(>= %s %s)", "(= [%s] [%s])", "(= {\"a\": %s} {\"a\": %s})", "(any (map [%s] (= . %s)))",
+                             # (a whole double outside the integer range is printed with its shortest digits, not the ones written here: results are
+                             #  looked at through comparisons only)
+                             "(size (sort_unique [%s, %s]))", "(size (filter [%s] (= . %s)))", "(map (sort [%s, %s]) (= . {x}))".replace("{x}", x),
+                             "(map (sort_by [{{\"k\": %s}}, {{\"k\": %s}}] .k) (= .k {x}))".replace("{x}", x).replace("{{", "{").replace("}}", "}")):
+                    txt = tmpl % (x, y)
+                    items.append((X.strip(EP.parse(txt, table)), ("null",), [], [], txt))
         for a, b in NEIGHBOURS:
             for lst in ([a, b], [b, a], [a, 1, b], [b, "x", a, None]):
                 for f in ("sort_unique", "sort", "order_unique"):
